@@ -67,9 +67,8 @@ def gen_fn(rng, name, trait, in_mod=False, allow_known=True, tp="T"):
         place = rng.choice(["inline", "where", "split", "none"]) if bounds else "none"
         inline = bounds if place == "inline" else bounds[:1] if place == "split" else []
         wh = bounds if place == "where" else bounds[1:] if place == "split" else []
-        if allow_known and dk == "gen_ref" and rng.random() < 0.06:
-            inline = ["?Sized"] + inline
-            known = "F16"
+        if dk == "gen_ref" and rng.random() < 0.06:
+            inline = ["?Sized"] + inline      # relaxed bound on the dependency generic (F16, repaired)
         tparams.append("D" + (": " + " + ".join(inline) if inline else ""))
         if wh:
             wheres.append("D: " + " + ".join(wh))
